@@ -1229,6 +1229,94 @@ def _update_skips_dry():
     return False
 
 
+def _update_rows():
+    """`update_states_in_database` / `_create_or_update_state`: one upsert per element of `node_and_neighbors(session.dag,
+    task_signature)`, keyed (task signature, node signature), storing `node.state()` in the NOT NULL column `hash_`.
+    (That all rows form ONE transaction is the fact `rowsSingleTransaction` of the section extract_crash — not repeated here.)"""
+    X = _host()
+    fn = _top_func("database_utils.py", "update_states_in_database")
+    if _params(fn) != ["session", "task_signature"]:
+        raise _err(f"update_states_in_database has parameters {_params(fn)}")
+    env = Env(fn, "database_utils.py")
+    env.vars["task_signature"] = Sym("sig")
+    loops = [n for n in _walk_no_nested(fn) if isinstance(n, ast.For)]
+    if len(loops) != 1 or not isinstance(loops[0].target, ast.Name) or loops[0].orelse:
+        raise _err("update_states_in_database: expected exactly one loop")
+    loop = loops[0]
+    it = loop.iter
+    if not (_callee(it) == "node_and_neighbors" and len(it.args) == 2 and _is_dag(it.args[0], env) and _is_name(it.args[1], "task_signature")):
+        raise _err(f"update_states_in_database loops over {_u(it)!r}, not node_and_neighbors(session.dag, task_signature)")
+    n = loop.target.id
+    node = state = None
+    key = None
+    for st in loop.body:
+        if isinstance(st, ast.Assign) and len(st.targets) == 1 and isinstance(st.targets[0], ast.Name):
+            x = _node_of(st.value, env)
+            if x is not None and _is_name(x, n):
+                node = st.targets[0].id; continue
+            if node and _u(st.value) == f"{node}.state()":
+                state = st.targets[0].id; continue
+        if isinstance(st, ast.Expr) and _callee(st.value) == "_create_or_update_state" and key is None:
+            c = st.value
+            if len(c.args) != 4 or c.keywords or not node:
+                raise _err(f"update_states_in_database: unrecognised call {_u(c)!r}")
+            a = [_u(x) for x in c.args[1:]]
+            val_ok = (state and a[2] == state) or a[2] == f"{node}.state()"
+            if not val_ok:
+                raise _err(f"update_states_in_database stores {a[2]!r}, not the node's state")
+            names = {"task_signature": "task", f"{node}.signature": "node", n: "node"}
+            if a[0] not in names or a[1] not in names or names[a[0]] == names[a[1]]:
+                raise _err(f"update_states_in_database: unrecognised row key ({a[0]}, {a[1]})")
+            key = [names[a[0]], names[a[1]]]
+            continue
+        if _inert(st, {n, node or "", state or ""}):
+            continue
+        raise _err(f"update_states_in_database: unrecognised statement in the loop: {_u(st).splitlines()[0]!r}")
+    if key is None:
+        raise _err("update_states_in_database does not call _create_or_update_state in its loop")
+    # the upsert helper
+    up = _top_func("database_utils.py", "_create_or_update_state")
+    ps = _params(up)
+    if len(ps) != 4:
+        raise _err("_create_or_update_state: expected (session, first_key, second_key, hash_)")
+    sess, k1, k2, hv = ps
+    row = None
+    adds = overwrites = False
+    for st in _body(up):
+        if isinstance(st, ast.Assign) and len(st.targets) == 1 and isinstance(st.targets[0], ast.Name) and row is None \
+                and _u(st.value) == f"{sess}.get(State, ({k1}, {k2}))":
+            row = st.targets[0].id
+            continue
+        if isinstance(st, ast.If) and row and st.orelse:
+            absent_first = _u(st.test) in (f"not {row}", f"{row} is None")
+            present_first = _u(st.test) in (row, f"{row} is not None")
+            if not (absent_first or present_first):
+                raise _err(f"_create_or_update_state: unrecognised test {_u(st.test)!r}")
+            absent, present = (st.body, st.orelse) if absent_first else (st.orelse, st.body)
+            adds = len(absent) == 1 and _u(absent[0]) == f"{sess}.add(State(task={k1}, node={k2}, hash_={hv}))"
+            overwrites = len(present) == 1 and _u(present[0]) == f"{row}.hash_ = {hv}"
+            if (not adds and not all(_inert(x) and "add" not in _u(x) for x in absent)) or \
+                    (not overwrites and not all(_inert(x) and ".hash_" not in _u(x) for x in present)):
+                raise _err("_create_or_update_state: unrecognised branch bodies")
+            continue
+        if _inert(st, {row or ""}) and "add(" not in _u(st) and ".hash_" not in _u(st):
+            continue
+        raise _err(f"_create_or_update_state: unrecognised statement {_u(st).splitlines()[0]!r}")
+    if row is None:
+        raise _err("_create_or_update_state does not look the row up with session.get(State, (first_key, second_key))")
+    # the table: (task, node) primary key, hash_ NOT NULL
+    mod = X._parse("database_utils.py")
+    cls = [c for c in mod.body if isinstance(c, ast.ClassDef) and c.name == "State"]
+    if len(cls) != 1:
+        raise _err("class State not found")
+    cols = {s.target.id: (_u(s.annotation), _u(s.value) if s.value else "") for s in cls[0].body
+            if isinstance(s, ast.AnnAssign) and isinstance(s.target, ast.Name)}
+    if set(cols) != {"task", "node", "hash_"} or cols["hash_"][0] != "Mapped[str]" or "nullable" in cols["hash_"][1] \
+            or any("primary_key=True" not in cols[c][1] for c in ("task", "node")) or "primary_key" in cols["hash_"][1]:
+        raise _err(f"State columns {cols} are not task/node (primary key) and hash_: Mapped[str] (NOT NULL)")
+    return key, adds, overwrites
+
+
 # ------------------------------------------------------------------------------------------------
 # execute.py: build loop, protocol, pytask_execute_task, teardown
 # ------------------------------------------------------------------------------------------------
@@ -1621,7 +1709,8 @@ def _facts():
     xsteps = _execute_steps()
     tchecks = _teardown_checks()
     wrappers, xguards = _execute_chain()
-    return dict(wrappers=wrappers, xguards=xguards, setups=setups, reports=reports, order=order, cases=cases, dry=dry, loop=loop, phases=phases,
+    rowkey, adds, overwrites = _update_rows()
+    return dict(rowkey=rowkey, adds=adds, overwrites=overwrites, wrappers=wrappers, xguards=xguards, setups=setups, reports=reports, order=order, cases=cases, dry=dry, loop=loop, phases=phases,
                 handlers=handlers, from_task=from_task, from_exc=from_exc, pairs=pairs, is_exc=is_exc, xsteps=xsteps,
                 tchecks=tchecks)
 
@@ -1642,6 +1731,10 @@ def engine_section() -> list[str]:
     L.append(f"def hasChangedCases : List HCase := {_lean(f['cases'])}")
     L.append("/-- `update_states_in_database` returns at once when `config[\"dry_run\"]` is set. -/")
     L.append(f"def updateStatesSkipsDryRun : Bool := {X.lean_bool(f['dry'])}")
+    L.append("/-- the row loop of `update_states_in_database`: key order of a row, and `_create_or_update_state`'s two branches. -/")
+    L.append(f"def updateRowKey : List String := {strs(f['rowkey'])}")
+    L.append(f"def upsertAddsWhenAbsent : Bool := {X.lean_bool(f['adds'])}")
+    L.append(f"def upsertOverwritesWhenPresent : Bool := {X.lean_bool(f['overwrites'])}")
     L.append("/-- `pytask_execute_task_setup` implementations (top-level, non-wrapper), by module. -/")
     L.append("def setupImpls : List SImpl := [\n  " + ",\n  ".join(_render_setup(n, s) for n, s in f["setups"]) + "]")
     L.append("/-- `pytask_execute_task_process_report` implementations, by module. -/")
